@@ -685,6 +685,83 @@ func init() {
 		fr.m.call(fr, token.NoPos, a[1], nil)
 		return nil
 	})
+	// sync.Map: an ordered map of the engine keyed by interface values, one per
+	// receiver (its real implementation rests on unsafe pointers and atomics).
+	syncMap := func(fr *frame, recv value) *omap {
+		m := fr.m
+		if m.objs == nil {
+			m.objs = map[string]value{}
+		}
+		k := fmt.Sprintf("syncmap%p", recv.(*value))
+		if c, ok := m.objs[k]; ok {
+			return c.(*omap)
+		}
+		om := makeMap(types.NewInterfaceType(nil, nil))
+		m.objs[k] = om
+		return om
+	}
+	reg("(*sync.Map).Load", func(fr *frame, a []value) value {
+		om := syncMap(fr, a[0])
+		fr.m.raceAcquire(om)
+		v, ok := om.lookup(fr.m, a[1])
+		if !ok {
+			return tuple{iface{}, false}
+		}
+		return tuple{v, true}
+	})
+	reg("(*sync.Map).Store", func(fr *frame, a []value) value {
+		om := syncMap(fr, a[0])
+		om.insert(fr.m, a[1], a[2])
+		fr.m.raceRelease(om)
+		return nil
+	})
+	reg("(*sync.Map).LoadOrStore", func(fr *frame, a []value) value {
+		om := syncMap(fr, a[0])
+		fr.m.raceAcquire(om)
+		if v, ok := om.lookup(fr.m, a[1]); ok {
+			return tuple{v, true}
+		}
+		om.insert(fr.m, a[1], a[2])
+		fr.m.raceRelease(om)
+		return tuple{a[2], false}
+	})
+	reg("(*sync.Map).LoadAndDelete", func(fr *frame, a []value) value {
+		om := syncMap(fr, a[0])
+		fr.m.raceAcquire(om)
+		v, ok := om.lookup(fr.m, a[1])
+		if !ok {
+			return tuple{iface{}, false}
+		}
+		om.delete(fr.m, a[1])
+		fr.m.raceRelease(om)
+		return tuple{v, true}
+	})
+	reg("(*sync.Map).Delete", func(fr *frame, a []value) value {
+		om := syncMap(fr, a[0])
+		om.delete(fr.m, a[1])
+		fr.m.raceRelease(om)
+		return nil
+	})
+	reg("(*sync.Map).Clear", func(fr *frame, a []value) value {
+		om := syncMap(fr, a[0])
+		om.clear()
+		fr.m.raceRelease(om)
+		return nil
+	})
+	reg("(*sync.Map).Range", func(fr *frame, a []value) value {
+		om := syncMap(fr, a[0])
+		fr.m.raceAcquire(om)
+		ents := append([]*mentry(nil), om.ents...)
+		for _, e := range ents {
+			if e == nil || e.dead {
+				continue
+			}
+			if r := fr.m.call(fr, token.NoPos, a[1], []value{e.key, e.val}); r != true {
+				break
+			}
+		}
+		return nil
+	})
 	reg("(*sync.WaitGroup).Add", func(fr *frame, a []value) value {
 		cell := a[0].(*value)
 		cnt := fr.m.wgCount(cell)
